@@ -157,10 +157,26 @@ def _mutable_defaults(f):
     return bool(kd) and any(not isinstance(x, _IMMUTABLE_DEFAULT) for x in kd.values())
 
 
+_mutdef_cache = {}
+_fast = {}  # module name -> (function list, their live attribute dicts, functions with mutable defaults, index)
+
+
+def _set_func_dict(f, d):
+    f.__dict__ = d
+    fast = _fast.get(f.__module__)
+    if fast is not None:
+        i = fast[3].get(f)
+        if i is not None:
+            fast[1][i] = d
+
+
 def _func_state(f):
     """(attribute dict, defaults, kwdefaults) of a function if it carries state, else None."""
     fd = f.__dict__
-    md = _mutable_defaults(f)
+    md = _mutdef_cache.get(f)
+    if md is None:
+        # whether a function HAS mutable defaults is a property of its definition: computed once
+        md = _mutdef_cache[f] = _mutable_defaults(f)
     if not fd and not md:
         return None
     return (fd, f.__defaults__ if md else None, f.__kwdefaults__ if md else None)
@@ -181,10 +197,17 @@ class GlobalsImage:
     def _read_fstate(self):
         fs = {}
         for m in self.fmods:
-            for f in _functions_of(m):
-                stt = _func_state(f)
-                if stt is not None:
-                    fs[f] = stt
+            funcs = _functions_of(m)
+            fast = _fast.get(m.__name__)
+            if fast is None or fast[0] is not funcs:
+                # (list identity, the functions' attribute dicts, the functions with mutable defaults)
+                fast = _fast[m.__name__] = (funcs, [f.__dict__ for f in funcs], [f for f in funcs if _func_state(f) is not None and _mutdef_cache.get(f)], {f: i for i, f in enumerate(funcs)})
+            if any(fast[1]):
+                for f, d in zip(funcs, fast[1]):
+                    if d:
+                        fs[f] = (d, None, None)
+            for f in fast[2]:  # functions with mutable default arguments (few)
+                fs[f] = (f.__dict__, f.__defaults__, f.__kwdefaults__)
         self.fstate = fs
 
     @classmethod
@@ -237,9 +260,9 @@ def switch_images(out, in_):
         tgt = in_.fstate
         for f in out.fstate:
             if f not in tgt:
-                f.__dict__ = {}  # this process never set anything on f
+                _set_func_dict(f, {})  # this process never set anything on f
         for f, (fd, dflt, kd) in tgt.items():
-            f.__dict__ = fd
+            _set_func_dict(f, fd)
             if dflt is not None:
                 f.__defaults__ = dflt
             if kd is not None:
